@@ -56,6 +56,6 @@ def run(tier, seed):
 
 
 MANIFEST = {
-    "text": "The real print functions run on a constructed tree with fprintf replaced by an event logger; for every assignment of the symbolic filter answers the log must show each accepted option exactly once, in declaration order, at its depth, between its section's brackets, commented out iff unset, formatted by its print callback iff it has one, with the effective filter = own or inherited.",
+    "text": "The real print functions run on a constructed tree with fprintf replaced by an event logger; for every assignment of the symbolic filter answers the log must show each accepted option exactly once, in declaration order, at its depth, between its section's brackets, commented out iff unset, formatted by its print callback iff it has one, with the effective filter = own or inherited. Registration of a print callback by name/path (cfg_set_print_func) is checked against stepwise navigation on shaped symbolic paths; the instance with its own filter is also the first of its siblings.",
     "note": "Concrete tree shape and filter presence per obligation, symbolic filter answers; event-level oracle (no bytes).",
 }
